@@ -16,7 +16,10 @@ Record snap := mkSnap {
   sn_owed_val : list (Z * bytes * Z);         (* change of each validator's outstanding rewards over the end-block, Dec *)
   sn_owed_comm : list (bytes * Z);            (* change of the community pool over the end-block, Dec *)
   sn_lookup : list (Z * bytes * option Z);    (* by-request-id query for every request id ever used *)
-  sn_inv : bool                               (* all registered crisis invariants hold *)
+  sn_inv : bool;                              (* all registered crisis invariants hold *)
+  sn_books : bool                             (* the three sn_owed* observations show the oracle's doing only: false when
+                                                 x/staking removed a validator in this end-block and the distribution hook
+                                                 moved its outstanding rewards in the same ABCI call *)
 }.
 
 (* typed settlement events as (kind, tenant, record id):
@@ -125,12 +128,12 @@ Definition cmp_snap (prev c : cstate) (i : snap) : list Z :=
   ++ (if list_eqb zz_eqb (o_miss o) (sn_miss i) then [] else [10])
   ++ (if forallb (fun v => match find_val (o_vals o) (v_addr v) with Some v' => val_eqb v v' | None => false end) (sn_vals i) then [] else [11])
   ++ (if coins_agree (o_pool o) (sn_pool i) then [] else [12])
-  ++ (if coins_agree (credited_delta (o_credited (c_o prev)) (o_credited o)) (sn_owed i) then [] else [13])
+  ++ (if negb (sn_books i) || coins_agree (credited_delta (o_credited (c_o prev)) (o_credited o)) (sn_owed i) then [] else [13])
   ++ (if forallb (fun l : Z * bytes * option Z =>
                     option_eqb Z.eqb (model_lookup s (fst (fst l)) (snd (fst l))) (snd l)) (sn_lookup i) then [] else [14])
   ++ (let ls := oracle_end_lines (staking_end (c_o prev)) (c_s prev) (c_h prev) in
       let '(a, b) := lines_agree ls (sn_owed_val i) (sn_owed_comm i) in
-      (if a then [] else [17]) ++ (if b then [] else [18])).
+      (if a || negb (sn_books i) then [] else [17]) ++ (if b || negb (sn_books i) then [] else [18])).
 
 (* runs model and implementation observations side by side; a disagreement is (event index, field) *)
 Fixpoint compare (k : Z) (c : cstate) (es : list event) (os : list iobs) : list (Z * Z) :=
